@@ -14,15 +14,15 @@ type setOps = setrun.Ops
 
 func parseSetKeys(s string) []int { return setrun.ParseSetKeys(s) }
 
-func makeSetOps[K comparable, S setrun.SetI[K, sets.Empty, S]](newSet func(items ...K) S, fromKey func(int) K, toKey func(K) int, less func(a, b K) bool) setOps {
-	return setrun.Run[K, sets.Empty, S](newSet, fromKey, toKey, less)
+func makeSetOps[K comparable, S setrun.SetI[K, sets.Empty, S]](newSet func(items ...K) S, fromKey func(int) K, toKey func(K) int, less func(a, b K) bool, keySet func(interface{}) S) setOps {
+	return setrun.Run[K, sets.Empty, S](newSet, fromKey, toKey, less, keySet)
 }
 
 var setKinds = map[string]setOps{
-	"int": makeSetOps[int, sets.Int](sets.NewInt, func(k int) int { return k - 3 }, func(v int) int { return v + 3 }, func(a, b int) bool { return a < b }),
+	"int": makeSetOps[int, sets.Int](sets.NewInt, func(k int) int { return k - 3 }, func(v int) int { return v + 3 }, func(a, b int) bool { return a < b }, sets.IntKeySet),
 	"int64": makeSetOps[int64, sets.Int64](sets.NewInt64, func(k int) int64 { return int64(k)*1000000007 - 5000000000 }, func(v int64) int { return int((v + 5000000000) / 1000000007) },
-		func(a, b int64) bool { return a < b }),
-	"byte": makeSetOps[byte, sets.Byte](sets.NewByte, func(k int) byte { return byte(k * 37) }, func(v byte) int { return int(v) / 37 }, func(a, b byte) bool { return a < b }),
+		func(a, b int64) bool { return a < b }, sets.Int64KeySet),
+	"byte": makeSetOps[byte, sets.Byte](sets.NewByte, func(k int) byte { return byte(k * 37) }, func(v byte) int { return int(v) / 37 }, func(a, b byte) bool { return a < b }, sets.ByteKeySet),
 	"string": makeSetOps[string, sets.String](sets.NewString, func(k int) string { return []string{"", "a", "ab", "b", "ba", "z", "é"}[k] },
 		func(v string) int {
 			for i, s := range []string{"", "a", "ab", "b", "ba", "z", "é"} {
@@ -31,7 +31,7 @@ var setKinds = map[string]setOps{
 				}
 			}
 			panic("unknown element " + v)
-		}, func(a, b string) bool { return a < b }),
+		}, func(a, b string) bool { return a < b }, sets.StringKeySet),
 }
 
 // genHistory generates one random history (without the reset line) over a universe of keys 0..universe-1
